@@ -420,7 +420,17 @@ def do_crop(src, out, mode, ranges):
             # a header to choose the box): every third crop is preceded by such a query
             if True:
                 # (a function of the request itself, so that a replayed input takes the same route)
-                hist = (sum(int(v) for r_ in ranges if r_ is not None for v in r_ if isinstance(v, (int, np.integer))) + (mode == 'idx')) % 3
+                hsum = sum(int(v) for r_ in ranges if r_ is not None for v in r_ if isinstance(v, (int, np.integer))) + (mode == 'idx')
+                hist = hsum % 3
+                if (hsum // 3) % 2 == 1:
+                    # ... or by a request the cropper must REFUSE (a box far outside the cube, by index): the refusal must
+                    # leave nothing behind on the object that changes how the next request is served
+                    try:
+                        quiet(c.write_cropped_file_by_indexes, out + '.refused', iline_index_range=(10 ** 6, 10 ** 6 + 4))
+                    except Exception:
+                        pass
+                    if os.path.exists(out + '.refused'):
+                        os.remove(out + '.refused')
                 try:
                     if hist == 1 and c.stored_header_keys:
                         c.get_tracefield_values(c.stored_header_keys[-1])
